@@ -139,12 +139,14 @@ func runCheck(repo, verif, prop, tier, onlyRule string, dump, noSelf bool) int {
 	start := time.Now()
 	var rules []*Rule
 	if onlyRule != "" {
-		r := ruleByID(onlyRule)
-		if r == nil {
-			fmt.Fprintln(os.Stderr, "unknown rule", onlyRule)
-			return 2
+		for _, id := range strings.Split(onlyRule, ",") {
+			r := ruleByID(id)
+			if r == nil {
+				fmt.Fprintln(os.Stderr, "unknown rule", id)
+				return 2
+			}
+			rules = append(rules, r)
 		}
-		rules = []*Rule{r}
 	} else {
 		rules = rulesFor(prop)
 	}
